@@ -10,7 +10,8 @@ META = {
             "evalSource/takeFromSource/evalDest/evalSend/evalStmts (withdrawAll_keeps, withdrawAlways_keeps + fallback_only_unbounded, repay_keeps, emit_floor, "
             "source_keeps, dest_keeps, send_keeps, stmt_keeps), plus short_sources_reject (bounded sources that cannot cover a send => the run is "
             "insufficient_funds, nothing emitted). Spec is tied to compiler+VM by a seeded end-to-end differential; an independent floor oracle replays "
-            "every accepted posting list against the balances it ran on.",
+            "every accepted posting list against the balances it ran on (all cases of a run share one process; a violation that the case alone does not "
+            "show is reported with the earlier case of the process that makes it show).",
     "note": "Trusted: Lean kernel; Spec as the reading of Numscript; harness pretty-printer (text<->AST); math/big as Int. The theorem is about Spec; its lift to "
             "the bytecode VM rests on the differential (until C08's compile_correct). An account named world reached through a variable is outside the "
             "floor, like the literal (the property excludes world).",
@@ -30,22 +31,25 @@ def cause(inp):
 def run(ctx):
     ctx.cov["trusted_base"] = TRUSTED
     ctx.l1()
-    r = run_numscript(ctx, 1500 if ctx.quick else 60000)
+    r = run_numscript(ctx, 2500 if ctx.quick else 60000)
     if r is None:
         return
     inputs, impl, model = r
     compare(ctx, "numscript:spec-vs-vm", inputs, impl, model, proj_impl=lambda i, o: strip(o))
     seen, nontrivial = set(), 0
+    rp = Replays(ctx, inputs)   # a replay is the case alone when that shows the violation, else (earlier case of the process, case)
     for inp in inputs:
         out = impl.get(inp["id"], {})
         for cls, what in floor_violations(inp, out):
-            ctx.violation({"property": "C01", "class": cls, "construct": cause(inp)}, what,
-                          {"area": "numscript", "input": inp, "observed": out})
+            rp.violation({"property": "C01", "class": cls, "construct": cause(inp)}, what, inp, out,
+                         lambda o, inp=inp, cls=cls: any(c == cls for c, _ in floor_violations(inp, o)))
         g, _ = grants(inp)
         h = shash(inp["text"] + canon(inp["bal"]))
         if h not in seen and any(v is not None for v in g.values()) and ("postings" in out and out["postings"] or out.get("err") == "insufficient_funds"):
             nontrivial += 1
         seen.add(h)
+    ctx.cov["replay_isolation"] = dict(rp.stats)
+    ctx.cov["shapes"] = dict(collections.Counter(i.get("shape") or "general" for i in inputs))
     ctx.cov["evaluations"] = len(inputs)
     ctx.cov["distinct_nontrivial"] = nontrivial
     ctx.cov["rule"] = ("type-directed random programs (variables of all six types incl. meta/balance origins, nested ordered/capped/portioned sources "
